@@ -227,7 +227,8 @@ def decide(pid, tier, spec, seed, t0, workdir, ev_path):
         if os.path.exists(wfile):
             os.remove(wfile)
         rc, out = run_witness(wit_args, wfile, seed, [k['id'] for k in known if k.get('matcher')])
-        info = dict(cmd='replay search ' + ' '.join(wit_args), exit=rc, summary=out.strip()[-600:])
+        kf = '\n'.join(l for l in out.split('\n') if l.startswith('known-finding:'))
+        info = dict(cmd='replay search ' + ' '.join(wit_args), exit=rc, summary=(kf + '\n' if kf else '') + out.strip()[-600:])
         for line in out.split('\n'):
             if line.startswith('stats-json:'):
                 try:
@@ -275,8 +276,10 @@ def decide(pid, tier, spec, seed, t0, workdir, ev_path):
         log(f"KNOWN-FINDING: property={pid} {hit.get('what', f['obligation'])}")
     known_ids_hit = [h.get('id') for h, _ in known_hits]
     if witness_info:
+        seen_kf = set()
         for line in witness_info['summary'].split('\n'):
-            if line.startswith('known-finding:'):
+            if line.startswith('known-finding:') and line.strip() not in seen_kf:
+                seen_kf.add(line.strip())
                 kid = line.split()[1]
                 for k in known:
                     if k.get('id') == kid:
